@@ -67,6 +67,11 @@ def core_det(tier):
         add(2, g, _quad(2, r, mn=[6.0, -7.0]), tags=["unbounded"])
         g = {"lb": [NINF, NINF], "ub": [INF, INF], "plb": [-1, -1], "pub": [1, 1], "x0": None}
         add(2, g, _quad(2, r, mn=[0.3, -0.2]), tags=["unbounded", "nox0"])
+        # bounded and unbounded coordinates in one problem, optimum beyond the finite bound
+        g = {"lb": [NINF, -2.0], "ub": [INF, 2.0], "plb": [-3, -1], "pub": [3, 1], "x0": [1.0, 0.5]}
+        add(2, g, _quad(2, r, mn=[2.0, 5.0]), tags=["mixed_unbounded", "outside"])
+        g = {"lb": [-4.0, NINF, NINF], "ub": [4.0, INF, INF], "plb": [-2, -2, -2], "pub": [2, 2, 2], "x0": [0.5, 0.5, 0.5]}
+        add(3, g, _quad(3, r, mn=[-7.0, 1.0, -1.0]), tags=["mixed_unbounded", "outside"])
         # tight box: plausible = hard
         g = {"lb": [-2, -2], "ub": [2, 2], "plb": [-2, -2], "pub": [2, 2], "x0": [0.5, 0.5]}
         add(2, g, _quad(2, r, mn=[3.0, 1.0]), tags=["tight", "outside"])
@@ -76,10 +81,22 @@ def core_det(tier):
         # x0 just inside the effective upper bound of a log-transformed coordinate: in internal coordinates
         # it is within half a search-mesh step of the bound, so the mesh-snapped start may have to be nudged back
         for j in range(8 if tier == "quick" else 14):
-            frac = r.choice([0.9982, 0.9985, 0.9987, 0.99885, 0.99895])
-            lbv, ubv = 1e-3 * r.choice([1, 3, 0.2]), r.choice([1000.0, 2500.0, 640.0, 87.0])
-            plv, puv = lbv * r.choice([30, 3000, 700]), ubv * r.choice([0.7, 0.05, 0.31])
-            x0v = lbv + frac * (ubv - lbv)
+            # rejection-sample until the snapped start really lies beyond the internal upper bound
+            for _try in range(400):
+                frac = r.uniform(0.9981, 0.99899)
+                lbv, ubv = 1e-3 * r.choice([1, 3, 0.2]), r.choice([1000.0, 2500.0, 640.0, 87.0]) * r.uniform(0.8, 1.2)
+                plv, puv = lbv * r.choice([30, 3000, 700]), ubv * r.choice([0.7, 0.05, 0.31])
+                x0v = lbv + frac * (ubv - lbv)
+                # the constructor moves plausible bounds inside the 0.1% margin of the hard box
+                ple = max(plv, lbv + 1e-3 * (ubv - lbv))
+                pue = min(puv, ubv - 1e-3 * (ubv - lbv))
+                mu_, ga_ = 0.5 * (math.log(ple) + math.log(pue)), 0.5 * (math.log(pue) - math.log(ple))
+                u0_ = (math.log(x0v) - mu_) / ga_
+                mesh_ = 2.0 ** -10
+                if round(u0_ / mesh_) * mesh_ > (math.log(ubv) - mu_) / ga_ and j % 4 != 3:
+                    break
+                if j % 4 == 3:      # every fourth scenario: any alignment
+                    break
             two = (j % 3 == 0)
             add(2 if two else 1,
                 {"lb": [lbv] + ([-4] if two else []), "ub": [ubv] + ([4] if two else []),
@@ -141,6 +158,13 @@ def core_det(tier):
         add(2, S.box_geom(2, x0=[2.0, -3.0]), _quad(2, r), {"search_n_try": 0, "max_fun_evals": 50}, tags=["ntry0"])
         add(2, S.box_geom(2, x0=[2.0, -3.0]), _quad(2, r), {"search_n_try": 2, "skip_poll_after_search": False}, tags=["noskip"])
         add(2, S.box_geom(2, x0=[2.0, -3.0]), _quad(2, r), {"search_size_locked": False}, tags=["unlocked"])
+        # unlocked search mesh without mesh acceleration, run down to a small mesh
+        add(2, S.box_geom(2, x0=[2.0, -3.0]), _quad(2, r, cond=3.0),
+            {"search_size_locked": False, "accelerate_mesh": False, "tol_fun": 1e-12, "tol_stall_iters": 60,
+             "tol_mesh": 1e-5, "max_fun_evals": 260}, tags=["unlocked", "noaccel", "smallmesh"])
+        add(1, S.box_geom(1, x0=[2.0]), _quad(1, r),
+            {"search_size_locked": False, "tol_fun": 1e-12, "tol_stall_iters": 60, "tol_mesh": 1e-5, "max_fun_evals": 200},
+            tags=["unlocked", "smallmesh"])
         add(2, S.box_geom(2, x0=[2.0, -3.0]), _quad(2, r), {"cache_size": 8}, tags=["smallcache"])
         # budgets just above the initial design
         for b in (7, 8, 9, 12):
